@@ -238,6 +238,8 @@ PLANS["C20"] = {
         T("closed", "closed", (20, 400), ["InvNoPanic"], backends="bolt,badger"),
         T("rich", "rich", (20, 400), ["InvNoPanic"]),
         T("extremes", "extremes", (10, 200), ["InvNoPanic"]),
+        # instants from year 1 to 9999, also before 1970, in indexed, filtered and sorted fields
+        T("alltimes", "alltimes", (12, 200), ["InvNoPanic"]),
         # export / import / create-by-query histories (also on names that exist), closed at the end
         T("io", "io", (20, 400), ["InvNoPanic"], backends="bolt,badger"),
         EDG("edges", ["InvNoPanic"], states=(20, 0), reads=(30, 200), writes=(10, 40)),
